@@ -118,6 +118,10 @@ static void cmd_mat(kv_t *K)
 	for (j = 0; j < n; ++j) for (k = M.colptr[j]; k < M.colptr[j + 1]; ++k) { int b = byrow ? j : (int) M.rowind[k]; if (!keep[b]) M.val[k] = from_lc(to_lc(M.val[k]) * (lc) ldexp(1.0, -6 * (1 + (b * 7) % 7))); }
 	free(mx); free(arg); free(keep);
     }
+    {   int tiny = (int) kv_i(K, "tiny", 0);     /* tiny=E: A(0,0) *= 2^-E -- with u = 0 and the natural order the first pivot is tiny, the factors inaccurate,
+						   and the refinement of ?gsrfs needs all its ITMAX steps */
+	if (tiny > 0) for (k = M.colptr[0]; k < M.colptr[1]; ++k) if (M.rowind[k] == 0) M.val[k] = from_lc(to_lc(M.val[k]) * (lc) ldexp(1.0, -tiny));
+    }
     {   const char *zc = kv_s(K, "zc", 0);     /* exactly zero columns (explicit zeros) */
 	if (zc) { char *v = strdup(zc), *s2 = 0, *t; sing = 1; for (t = strtok_r(v, ",", &s2); t; t = strtok_r(0, ",", &s2)) { int c = atoi(t); if (c >= 0 && c < n) for (k = M.colptr[c]; k < M.colptr[c + 1]; ++k) M.val[k] = mk_scalar(0, 0); } free(v); }
     }
